@@ -43,7 +43,10 @@ class ContractMixin:
             t = ptypes.get(n)
             if t is not None and not (isinstance(v.t, TConst) and v.const is None and not isinstance(v.extra, list)):
                 try:
-                    bound[n] = sym.coerce(self.reify(v), t)
+                    if isinstance(v.t, TOpt) and not isinstance(t, TOpt):
+                        bound[n] = self.coerce_to(v, t, st, node)  # None must be excluded: obligation
+                    else:
+                        bound[n] = sym.coerce(self.reify(v), t)
                 except (TypeError, EngineError) as err:
                     raise EngineError(f"argument {n} of {fs.target}: {err}")
         return bound, ptypes, mod
